@@ -592,6 +592,19 @@ func c6FrontEnds(c *Ctx, lv map[string]int64) {
 			}
 		}
 		if hit == nil {
+			// the other design: the printer holds the sugared logger and its level, and calls Log/Logf/Logln(level, …),
+			// whose own pre-check is decided with the SugaredLogger helpers (no-skip-from-dpanic-up)
+			want := map[string]string{"Print": "Log", "Printf": "Logf", "Println": "Logln"}[m]
+			var viaLog ssa.Instruction
+			for _, cl := range Calls(fn) {
+				if IsCallTo(cl, "(*go.uber.org/zap.SugaredLogger)."+want) && strings.HasSuffix(Desc(Args(cl)[1]), ".level") && strings.HasPrefix(Desc(Args(cl)[1]), fn.Params[0].Name()+".") {
+					viaLog = cl
+				}
+			}
+			if viaLog != nil {
+				c.Check(mustPass(fn, func(i ssa.Instruction) bool { return i == viaLog }), "R6.2", fn.String(), "routes", viaLog.Pos(), "always forwards to SugaredLogger.%s at the printer's own level", want)
+				continue
+			}
 			c.Bad("R6.2", fn.String(), "routes", fn.Pos(), "does not call v.%s", fld)
 			continue
 		}
@@ -659,6 +672,14 @@ func c6FrontEnds(c *Ctx, lv map[string]int64) {
 				}
 			}
 			ok := got["level"] == itoa(int(lvl)) && got["print"] == "closure "+pm+"$bound" && got["printf"] == "closure "+pfm+"$bound" && strings.HasSuffix(got["enab"], "levelEnabler")
+			if !ok && got["level"] == itoa(int(lvl)) && len(got) == 2 {
+				// {log: the delegate, level}: the level alone selects what the printer does
+				for f, v := range got {
+					if f != "level" && strings.HasSuffix(v, ".delegate") {
+						ok = true
+					}
+				}
+			}
 			c.Check(ok, "R6.2", nl.String(), "printer/"+which, nl.Pos(), "the %s printer is {level:%d, print:delegate.%s, printf:delegate.%s, enab: the live enabler} (got %v)", which, lvl, pm, pfm, got)
 		}
 		if fatalAlloc == nil || printAlloc == nil {
